@@ -23,5 +23,10 @@ meta["validated"] = {
 }
 meta["checks_run"] = {p: {"cmd": "./check %s --root <scratch worktree with the patch>" % p, "exit": d["exit"], "first_report": (d["reports"] or [""])[0]} for p, d in ev["checks"].items()}
 meta["detected_by"] = [p for p, d in ev["checks"].items() if d["exit"] == 1]
+if os.path.exists(dst + "/meta.json"):
+    prev = json.load(open(dst + "/meta.json"))
+    for k in ("checks_before_seeding", "strengthened"):
+        if k in prev:
+            meta[k] = prev[k]
 json.dump(meta, open(dst + "/meta.json", "w"), indent=1)
 print(name, "kept; detected by", meta["detected_by"])
